@@ -43,7 +43,13 @@ def run_batch(ctx, n, with_model=True):
         renamed = copy.copy(prog)
         renamed.name = rng.choice(["other_name_" + prog.name, "partial", "deterministic_choice", "str", "map", "recompile", "run_experiment", "_checksum"])
         permuted = copy.copy(prog); permuted.splitters = list(reversed(prog.splitters)) + [prog.splitters[0]]
-        ev_renamed, ev_permuted = evaluator(gen.render(renamed)), evaluator(gen.render(permuted))
+        try:
+            ev_renamed, ev_permuted = evaluator(gen.render(renamed)), evaluator(gen.render(permuted))
+        except Exception as ex:  # noqa
+            ctx.violation(f"renaming the experiment or permuting / repeating its splitters makes it fail to compile "
+                          f"({common.classify_exc(ex)}): {gen.render(permuted)[:160]}",
+                          {"text": text, "renamed": gen.render(renamed), "permuted": gen.render(permuted), "error": repr(ex)[:200]})
+            continue
         for env in envs:
             base = common.outcome_of(lambda: ev(**env))
             ctx.count("base:" + ("group" if "g" in base else base.get("e", "?")))
